@@ -334,7 +334,7 @@ def A.burst (F : Nat) (Q : Nat → ℚ) (size : Int → Nat) (ws : List (Nat × 
           | (L', none) => visitFrom Q size a1.ccnt a1.hol t (m + 1) rest L'))
     | [] => { a := a, evs := [], fin := .hang }
 
-variable (F : Nat) (size : Int → Nat) (cfg : DRR.Cfg ℚ) (Lmax : Nat)
+variable (F : Nat) (size : Int → Nat) (cfg : DRR.Cfg ℚ) (Lmax P : Nat)
 
 /-- the quantum of a class (0 for a class that is not declared) -/
 def qOf (c : Nat) : ℚ := (DRR.quantum cfg c).getD 0
@@ -403,6 +403,8 @@ structure AInv (a : A) (now : ℚ) : Prop where
   dfcOK : ∀ f, f < F → 0 ≤ a.dfc f
   table : FlowsOK F cfg
   rate : 0 < cfg.rate
+  /-- the passes allowed in one burst suffice for packets of `Lmax` bytes -/
+  pass : ∃ k, P = k + 1 ∧ Lmax ≤ 1500 * k
 
 /-- number of kernel steps a configuration still needs (an upper bound) -/
 def RPhase.mu : RPhase → Nat
